@@ -202,3 +202,57 @@ func ReachSet(root *ssa.Function, dyn func(call ssa.CallInstruction) []*ssa.Func
 	walk(root)
 	return seen
 }
+
+// FuncValueOf: the function behind a function value — a function, a closure over one, or a bound method.
+func FuncValueOf(v ssa.Value) *ssa.Function {
+	switch x := Strip(v).(type) {
+	case *ssa.Function:
+		return Unwrap(x)
+	case *ssa.MakeClosure:
+		if f, ok := x.Fn.(*ssa.Function); ok {
+			return Unwrap(f)
+		}
+	case *ssa.ChangeType:
+		return FuncValueOf(x.X)
+	}
+	return nil
+}
+
+// ParamCallSitesOf lists the calls `p(…)` of a function-typed parameter p inside module functions to which fn is
+// handed as that parameter at some call site (`store(func() T { … })`, `store(s.Total)`): the places where fn runs
+// although nobody calls it by name.
+func ParamCallSitesOf(c *core.Ctx, fn *ssa.Function) []ssa.CallInstruction {
+	var out []ssa.CallInstruction
+	for _, g := range c.AllFuncs {
+		for _, site := range AllCalls(g) {
+			h := Callee(site)
+			if h == nil || h.Blocks == nil || !core.InModule(h) {
+				continue
+			}
+			for i, a := range site.Common().Args {
+				if i >= len(h.Params) || FuncValueOf(a) != fn {
+					continue
+				}
+				p := h.Params[i]
+				for _, inner := range AllCalls(h) {
+					if Callee(inner) == nil && !inner.Common().IsInvoke() && Strip(inner.Common().Value) == ssa.Value(p) {
+						out = append(out, inner)
+					}
+				}
+			}
+		}
+	}
+	return out
+}
+
+// PassesFunc: some call in fn hands a function value satisfying pred to its callee.
+func PassesFunc(fn *ssa.Function, pred func(*ssa.Function) bool) bool {
+	for _, call := range AllCalls(fn) {
+		for _, a := range call.Common().Args {
+			if f := FuncValueOf(a); f != nil && pred(f) {
+				return true
+			}
+		}
+	}
+	return false
+}
